@@ -18,7 +18,10 @@
         int _r = (x);                                                          \
         if (_r != ABT_SUCCESS) {                                               \
             EV("\"e\":\"DrvErr\",\"line\":%d,\"ret\":%d", __LINE__, _r);       \
-            abtv_fail("broken:driver-call-failed", ABTV_EXIT_BROKEN);          \
+            /* a legal call that the scenario relies on returned an error code: \
+             * on the unchanged tree this never happens, so it is evidence, not  \
+             * an infrastructure problem */                                      \
+            abtv_fail("crash:api-error", ABTV_EXIT_CRASH);                      \
         }                                                                      \
     } while (0)
 
